@@ -415,13 +415,13 @@ def check_sentinels(ck: Checker, rid: str):
         done = False
         for g in gets:
             var = g.ast.targets[0].id
-            tests = [n for n in cfg.nodes if n.kind == 'test' and isinstance(n.ast, ast.Compare) and is_name(n.ast.left, var) and isinstance(n.ast.ops[0], ast.Is) and is_none(n.ast.comparators[0]) and n.loops]
+            tests = [n for n in cfg.nodes if n.kind == 'test' and isinstance(n.ast, ast.Compare) and is_name(n.ast.left, var) and isinstance(n.ast.ops[0], (ast.Is, ast.IsNot)) and is_none(n.ast.comparators[0]) and n.loops]
             if not tests:
                 continue
             done = True
             t = tests[0]
             loop_id = g.loops[0]
-            sent_edges = [e for e in cfg.succ[t.id] if e.kind == 'T']
+            sent_edges = [e for e in cfg.succ[t.id] if e.kind == ('T' if isinstance(t.ast.ops[0], ast.Is) else 'F')]
             probs = []
             # (a) terminates: the dequeue is not reached again from the sentinel branch
             p = path_avoiding(cfg, sent_edges, {k.id for k in gets})
